@@ -27,18 +27,34 @@
        coded weighted input derivatives of linear, polynomial, monomial, Gaussian kernels and of scaled kernels,
        and the coded parameter derivatives (polynomial offset, Gaussian gamma), equal the tangent of the weighted
        sum of kernel values (MonomialKernel without side condition since its degree-1 repair in /repo;
-       C05_monomial_degree1_old_gradient_refuted is the regression witness for the old code).
+       C05_monomial_degree1_old_gradient_refuted is the regression witness for the old code);
+     * derivatives of the composed kernels (C05Deriv.v, same device, compositional specification DOK = value and
+       tangent of the model code on dual numbers with parameters AND both inputs perturbed): ARDKernelUnconstrained
+       (input gradient, per-dimension parameter gradient through gamma_i = exp(p_i)), polynomial offset / Gaussian gamma
+       in plain and unconstrained (exp) encoding, ScaledKernel, NormalizedKernel (input and parameter gradients:
+       quotient rule through sqrt; premises: sqrtA is a non-zero square root of the diagonal values, multiplicative
+       on them, 1+1 <> 0, base kernel symmetric), WeightedSumKernel (log-weight gradients w_i (k_i W - N)/W^2,
+       pass-through of the sub-kernels' parameter gradients scaled by w_i/W, input gradient), SubrangeKernelWrapper
+       (gradient written into columns [a,b), parameter pass-through), ModelKernel with a LinearModel (chain rule:
+       kernel parameters | model parameter gradient with the inner kernel's input gradients at (f x, f z) and (f z, f x));
+       C05_input_derivative_of_spec / C05_parameter_derivative_of_spec turn a specification of ANY kernel expression
+       built from these into the statement about weightedInputDerivative / weightedParameterDerivative (wid / wpdv);
+       the dual division / square root used for the lifting are characterised as THE dual solutions of r*q = p, r*r = p.
+   NO CODED DERIVATIVE (nothing to prove): ProductKernel sets neither HAS_FIRST_PARAMETER_DERIVATIVE nor
+       HAS_FIRST_INPUT_DERIVATIVE and overrides neither routine; ModelKernel has no input derivative.  tools/c05.py
+       checks the flags on every case (a kernel expression has a model gradient iff the C++ reports one).
    PARTIAL:
      * C05_psd_gaussian_partial: PSD of the Gaussian kernel is reduced to PSD of (x,z) |-> exp(2 g <x,z>) for any
        expA with exp(a+b) = exp a * exp b; the remaining step (exponential series / Bochner) is NOT proved.
        Full statement: forall n g, 0 <= g -> PSDOn (dimP n) (k_gauss g) over the reals with expA = exp.
    ONLY COMPARED / MONITORED (tools/c05.py): the correspondence of the C++ with this model (exact on
-   integer/dyadic inputs, 1e-11 otherwise); ARD/Gaussian eigenvalues; derivatives of ARD, normalised, weighted-sum
-   (weights), product, sub-range, model-based, point-set kernels (finite differences); sparse inputs; MklKernel;
-   calculateMixedKernelMatrix, KernelMatrix, calculateKernelMatrixParameterDerivative. *)
+       integer/dyadic inputs, 1e-11 otherwise), including every g_ / p_ function above against the C++ derivative calls;
+       ARD/Gaussian eigenvalues; derivatives of point-set kernels, MklKernel and of PolynomialKernel with the degree as
+       parameter (finite differences only); sparse inputs; calculateMixedKernelMatrix, KernelMatrix,
+       calculateKernelMatrixParameterDerivative (finite differences). *)
 From Coq Require Import List Arith Bool.
 From Coq Require Import QArith Qcanon.
-From SharkV Require Import C03Model C05Model C05Proofs C05Aux.
+From SharkV Require Import C03Model C05Model C05Proofs C05Aux C05Deriv.
 Import ListNotations.
 
 Theorem C05_ordered_field_instance : OrdField (Q2Qc 0) 1%Qc Qcplus Qcmult Qcminus Qcdiv Qcopp Qcinv Qcle.
@@ -237,6 +253,104 @@ Theorem C05_monomial_degree1_old_gradient_refuted :
   dotA (g_mono_old A zero one add mul div isz 1%nat x z) dx = zero /\
   dotA (g_mono A zero one add mul div isz 1%nat x z) dx = one.
 Proof. exact (mono1_old_refuted A zero one add mul sub div opp inv le OF isz isz_spec). Qed.
+
+(* ---- derivatives of the composed kernels (C05Deriv.v): compositional specification DOK ----
+   DOK Dir Pt n m K k g p: for every parameter direction dth (length m), points x, z (length n, in Pt) and input
+   directions dx, dz (length n, in Dir), the model code K run on dual numbers (parameters + eps dth, x + eps dx,
+   z + eps dz) has value k x z and tangent <p x z, dth> + <g x z, dx> + <g z x, dz>, and g, p have lengths n, m.
+   K_xxx is the model code of C05Model.v (k_ard, k_norm, k_wsum, k_sub, k_pull/linmap, ...) instantiated with dual
+   numbers; exp, division and square root are lifted by dexp, ddiv, dsqrt. *)
+Notation DOKA := (DOK A zero add mul).
+Notation gsc := (g_scaled A mul).
+Theorem C05_dual_division_is_the_dual_quotient : forall p q : D, fst q <> zero ->
+  dmul A add mul (ddiv A mul sub div p q) q = p /\ forall r, dmul A add mul r q = p -> r = ddiv A mul sub div p q.
+Proof. exact (ddiv_spec A zero one add mul sub div opp inv le OF). Qed.
+Theorem C05_dual_sqrt_is_the_dual_root : forall p : D,
+  mul (sqrtA (fst p)) (sqrtA (fst p)) = fst p -> sqrtA (fst p) <> zero -> two A one add <> zero ->
+  dmul A add mul (dsqrt A one add mul div sqrtA p) (dsqrt A one add mul div sqrtA p) = p /\
+  forall r, fst r = sqrtA (fst p) -> dmul A add mul r r = p -> r = dsqrt A one add mul div sqrtA p.
+Proof. exact (dsqrt_spec A zero one add mul sub div opp inv le sqrtA OF). Qed.
+(* leaves (both arguments and the parameters perturbed at once) *)
+Theorem C05_derivatives_linear : forall Dir Pt n,
+  DOKA Dir Pt n 0 (K_lin A zero add mul) (k_lin A zero add mul) (g_lin A) (p_none A).
+Proof. exact (DOK_lin A zero one add mul sub div opp inv le OF). Qed.
+(* e = one: offset is the parameter; e = c: unconstrained encoding, offset c = exp(parameter), dual offset dexp (log c, t) = (c, c t) *)
+Theorem C05_derivatives_polynomial : forall Dir Pt n d c e,
+  DOKA Dir Pt n 1 (K_poly A zero one add mul d c e) (k_poly A zero one add mul d c) (g_poly A zero one add mul div isz d c)
+       (gsc e (p_one A (p_poly A zero one add mul div isz d c))).
+Proof. exact (DOK_poly A zero one add mul sub div opp inv le OF isz isz_spec). Qed.
+Theorem C05_derivatives_monomial : forall Dir Pt n d,
+  DOKA Dir Pt n 0 (K_mono A zero one add mul d) (k_mono A zero one add mul d) (g_mono A zero one add mul div isz d) (p_none A).
+Proof. exact (DOK_mono A zero one add mul sub div opp inv le OF isz isz_spec). Qed.
+Theorem C05_derivatives_gaussian : forall Dir Pt n g e,
+  DOKA Dir Pt n 1 (K_gauss A zero add mul sub opp expA g e) (k_gauss A zero add mul sub opp expA g)
+       (g_gauss A zero one add mul sub opp expA g) (gsc e (p_one A (p_gauss A zero add mul sub opp expA g))).
+Proof. exact (DOK_gauss A zero one add mul sub div opp inv le expA OF). Qed.
+(* (a) ARDKernelUnconstrained: parameters ps = log gammas, gammas = exp ps, dual gammas dexp (ps_i, dth_i) *)
+Theorem C05_derivatives_ard : forall Dir Pt n ps, length ps = n ->
+  DOKA Dir Pt n n (K_ard A zero add mul sub opp expA ps) (k_ard A zero add mul sub opp expA (map expA ps))
+       (g_ard A zero one add mul sub opp expA (map expA ps)) (p_ard A zero add mul sub opp expA (map expA ps)).
+Proof. exact (DOK_ard A zero one add mul sub div opp inv le expA OF). Qed.
+Theorem C05_input_derivative_ard : forall n ps C X1 dX1 X2, length ps = n -> shapes A n C X1 dX1 X2 ->
+  WS (K_ard A zero add mul sub opp expA ps (repeat zero n)) C X1 dX1 X2
+  = GR (wid A zero add mul n (g_ard A zero one add mul sub opp expA (map expA ps)) C X1 X2) dX1.
+Proof. exact (wid_ard_correct A zero one add mul sub div opp inv le expA OF). Qed.
+Theorem C05_parameter_derivative_ard : forall n ps C X1 X2 dth, length ps = n -> shapes A n C X1 X1 X2 -> length dth = n ->
+  wsumP A zero add mul (K_ard A zero add mul sub opp expA ps dth) C X1 X2
+  = dotA (wpdv A zero add mul n (p_ard A zero add mul sub opp expA (map expA ps)) C X1 X2) dth.
+Proof. exact (wpdv_ard_correct A zero one add mul sub div opp inv le expA OF). Qed.
+(* closure: ScaledKernel *)
+Theorem C05_derivatives_scaled : forall Dir Pt n m f K k g p, DOKA Dir Pt n m K k g p ->
+  DOKA Dir Pt n m (K_scaled A zero add mul f K) (k_scaled A mul vec f k) (gsc f g) (gsc f p).
+Proof. exact (DOK_scaled A zero one add mul sub div opp inv le OF). Qed.
+(* (b) NormalizedKernel: Pt' = points where sqrtA is a non-zero square root of k(x,x); sqrt(kxx*kzz) (derivative code)
+   = sqrt(kxx)*sqrt(kzz) (evaluation code) *)
+Theorem C05_derivatives_normalized : forall (Dir Pt Pt' : vec -> Prop) n m K k g p,
+  DOKA Dir Pt n m K k g p -> (forall x z, k x z = k z x) -> two A one add <> zero ->
+  (forall x, Pt' x -> Pt x /\ mul (sqrtA (k x x)) (sqrtA (k x x)) = k x x /\ sqrtA (k x x) <> zero) ->
+  (forall x z, Pt' x -> Pt' z -> sqrtA (mul (k x x) (k z z)) = mul (sqrtA (k x x)) (sqrtA (k z z))) ->
+  DOKA Dir Pt' n m (K_norm A one add mul sub div sqrtA K) (k_norm A div sqrtA vec k)
+       (g_norm A one add mul div opp sqrtA k g) (p_norm A one add mul div opp sqrtA k p).
+Proof. exact (DOK_norm A zero one add mul sub div opp inv le sqrtA OF). Qed.
+(* (c) WeightedSumKernel: weights 1, exp(lws_i); parameters = log-weights of kernels 2..n, then the sub-kernels'
+   parameters (each sub-kernel gets its slice of the direction); division by the weight sum *)
+Theorem C05_derivatives_weighted_sum : forall (Dir Pt : vec -> Prop) n (lws : vec) (cs : list (comp A)),
+  length cs = S (length lws) -> Forall (cOK A zero add mul Dir Pt n) cs ->
+  lsum A zero add (one :: map expA lws) <> zero ->
+  let L := combine (one :: map expA lws) cs in
+  DOKA Dir Pt n (length lws + msum A cs) (K_wsum A zero one add mul sub div expA lws cs)
+       (k_wsum A zero add mul div vec (map (fun t => (fst t, c_k A (snd t))) L))
+       (g_wsum A zero add mul div n (map (fun t => (fst t, c_g A (snd t))) L))
+       (p_wsum A zero add mul sub div (map (fun t => (fst t, (c_k A (snd t), c_p A (snd t)))) L)).
+Proof. exact (DOK_wsum A zero one add mul sub div opp inv le expA OF). Qed.
+(* (d) SubrangeKernelWrapper (SubrangeKernel = WeightedSumKernel of wrappers): columns [a,b) of n *)
+Theorem C05_derivatives_subrange : forall (Dir Dir' Pt Pt' : vec -> Prop) n m a b K k g p, (a <= b)%nat -> (b <= n)%nat ->
+  DOKA Dir' Pt' (b - a)%nat m K k g p ->
+  (forall v, length v = n -> Dir v -> Dir' (subvec A a b v)) -> (forall x, length x = n -> Pt x -> Pt' (subvec A a b x)) ->
+  DOKA Dir Pt n m (K_sub A a b K) (k_sub A a b k) (g_sub A zero n a b g) (p_sub A a b p).
+Proof. exact (DOK_sub A zero one add mul sub div opp inv le OF). Qed.
+(* (d) ModelKernel with a LinearModel x |-> W x + b (mo outputs): parameters = kernel parameters | W row-major | b; chain
+   rule through the inner kernel's INPUT gradients at (f x, f z) and (f z, f x) and the model's parameter gradient.
+   No coded input derivative: input directions are zero (DirZero), the g component is a placeholder. *)
+Theorem C05_derivatives_model_kernel : forall (Pt' : vec -> Prop) n mo mk (W : list vec) (b : vec) K k g p,
+  length W = mo -> Forall (fun r => length r = n) W -> length b = mo ->
+  DOKA (DirAll A) Pt' mo mk K k g p ->
+  DOKA (DirZero A zero) (fun x => Pt' (linmap A zero add mul W b x)) n (mk + (mo * n + mo))%nat (K_model A zero add mul n W b mk K)
+       (k_pull A (linmap A zero add mul W b) k) (fun _ _ => repeat zero n) (p_model A zero add mul W b g p).
+Proof. exact (DOK_model A zero one add mul sub div opp inv le OF). Qed.
+(* from the specification to the batch routines weightedInputDerivative / weightedParameterDerivative *)
+Theorem C05_input_derivative_of_spec : forall (Pt : vec -> Prop) n m K k g p C X1 dX1 X2,
+  DOKA (DirAll A) Pt n m K k g p -> shapes A n C X1 dX1 X2 -> Forall Pt X1 -> Forall Pt X2 ->
+  WS (K (repeat zero m)) C X1 dX1 X2 = GR (wid A zero add mul n g C X1 X2) dX1.
+Proof. exact (wid_of_DOK A zero one add mul sub div opp inv le OF). Qed.
+Theorem C05_parameter_derivative_of_spec : forall (Dir Pt : vec -> Prop) n m K k g p C X1 X2 dth,
+  DOKA Dir Pt n m K k g p -> Dir (repeat zero n) -> shapes A n C X1 X1 X2 -> Forall Pt X1 -> Forall Pt X2 -> length dth = m ->
+  wsumP A zero add mul (K dth) C X1 X2 = dotA (wpdv A zero add mul m p C X1 X2) dth.
+Proof. exact (wpdv_of_DOK A zero one add mul sub div opp inv le OF). Qed.
+Theorem C05_dual_run_computes_the_kernel : forall (Dir Pt : vec -> Prop) n m K k g p dth x z,
+  DOKA Dir Pt n m K k g p -> Dir (repeat zero n) -> length dth = m -> length x = n -> length z = n -> Pt x -> Pt z ->
+  fst (K dth (cstv A zero x) (cstv A zero z)) = k x z.
+Proof. exact (value_of_DOK A zero add mul). Qed.
 End Statements.
 
 Print Assumptions C05_sym_linear.
@@ -293,6 +407,23 @@ Print Assumptions C05_weighted_sum_tangent_inputs.
 Print Assumptions C05_weighted_sum_tangent_parameter.
 Print Assumptions C05_dual_numbers_sound.
 Print Assumptions C05_monomial_degree1_old_gradient_refuted.
+Print Assumptions C05_dual_division_is_the_dual_quotient.
+Print Assumptions C05_dual_sqrt_is_the_dual_root.
+Print Assumptions C05_derivatives_linear.
+Print Assumptions C05_derivatives_polynomial.
+Print Assumptions C05_derivatives_monomial.
+Print Assumptions C05_derivatives_gaussian.
+Print Assumptions C05_derivatives_ard.
+Print Assumptions C05_input_derivative_ard.
+Print Assumptions C05_parameter_derivative_ard.
+Print Assumptions C05_derivatives_scaled.
+Print Assumptions C05_derivatives_normalized.
+Print Assumptions C05_derivatives_weighted_sum.
+Print Assumptions C05_derivatives_subrange.
+Print Assumptions C05_derivatives_model_kernel.
+Print Assumptions C05_input_derivative_of_spec.
+Print Assumptions C05_parameter_derivative_of_spec.
+Print Assumptions C05_dual_run_computes_the_kernel.
 
 (* the premises of the conditional statements are satisfiable (over the rationals) *)
 Example C05_normalized_premises_satisfiable :
@@ -309,3 +440,23 @@ Example C05_derivative_premises_satisfiable :
   (forall a : Qc, qc_isz a = true <-> a = Q2Qc 0) /\
   shapes Qc 2%nat [[1%Qc; Q2Qc 2]] [[1%Qc; Q2Qc 0]] [[Q2Qc 0; 1%Qc]] [[Q2Qc 0; 1%Qc]; [1%Qc; 1%Qc]].
 Proof. exact deriv_hyps_example. Qed.
+(* premises of the composed-kernel derivative theorems: two <> 0, symmetric base kernel, sqrt laws on a point set
+   (NormalizedKernel); component specifications and non-zero weight sum (WeightedSumKernel); shapes of W, b and an inner
+   specification for all directions (ModelKernel); range and direction conditions (SubrangeKernel) *)
+Example C05_composed_derivative_premises_satisfiable :
+  let k := C05Model.dot Qc (Q2Qc 0) Qcplus Qcmult in
+  let Pt' := fun x : list Qc => x = [Q2Qc 3; Q2Qc 4] \/ x = [Q2Qc 0; Q2Qc 5] in
+  two Qc 1%Qc Qcplus <> Q2Qc 0 /\
+  (forall x z, k x z = k z x) /\
+  (forall x, Pt' x -> True /\ (qc_sq25 (k x x) * qc_sq25 (k x x) = k x x)%Qc /\ qc_sq25 (k x x) <> Q2Qc 0) /\
+  (forall x z, Pt' x -> Pt' z -> qc_sq25 (k x x * k z z)%Qc = (qc_sq25 (k x x) * qc_sq25 (k z z))%Qc) /\
+  (let cs := [qc_lincomp; qc_lincomp] in
+   length cs = S (length [Q2Qc 0]) /\
+   Forall (cOK Qc (Q2Qc 0) Qcplus Qcmult (DirAll Qc) (fun _ => True) 2) cs /\
+   lsum Qc (Q2Qc 0) Qcplus (1%Qc :: map (fun _ : Qc => 1%Qc) [Q2Qc 0]) <> Q2Qc 0) /\
+  (let W := [[1%Qc; Q2Qc 2]] in
+   length W = 1%nat /\ Forall (fun r => length r = 2%nat) W /\ length [Q2Qc 0] = 1%nat /\
+   DOK Qc (Q2Qc 0) Qcplus Qcmult (DirAll Qc) (fun _ => True) 1 0 (K_lin Qc (Q2Qc 0) Qcplus Qcmult) (k_lin Qc (Q2Qc 0) Qcplus Qcmult) (g_lin Qc) (p_none Qc)) /\
+  ((0 <= 1)%nat /\ (1 <= 2)%nat /\
+   (forall v : list Qc, length v = 2%nat -> DirAll Qc v -> DirAll Qc (subvec Qc 0 1 v))).
+Proof. exact composed_deriv_hyps_example. Qed.
